@@ -531,7 +531,14 @@ func (p *Prog) Object(pkgShort, name string) types.Object {
 	if pk == nil {
 		return nil
 	}
-	return pk.Types.Scope().Lookup(name)
+	if o := pk.Types.Scope().Lookup(name); o != nil {
+		return o
+	}
+	// a function of the reference tree that was found under another name (applyRenames)
+	if f := p.Funcs[pkgShort+"."+name]; f != nil && f.Obj != nil {
+		return f.Obj
+	}
+	return nil
 }
 
 // ExtObject looks up a package-level object of any package in the import graph.
@@ -551,7 +558,16 @@ func (p *Prog) Method(pkgShort, typ, method string) *types.Func {
 	if n == nil {
 		return nil
 	}
-	return MethodOf(n, method)
+	if m := MethodOf(n, method); m != nil {
+		return m
+	}
+	// a method of the reference tree that was found under another name (applyRenames)
+	for _, recv := range []string{"(*" + typ + ")", "(" + typ + ")"} {
+		if f := p.Funcs[pkgShort+"."+recv+"."+method]; f != nil && f.Obj != nil {
+			return f.Obj
+		}
+	}
+	return nil
 }
 
 func MethodOf(n *types.Named, method string) *types.Func {
